@@ -85,70 +85,129 @@ def from_row_iter_copy(ctx, F, rule='C15.R1'):
     if not shape_ok:
         ctx.undecided(rule, site, 'matrix / bias are not zeros((outdim, indim)) / zeros(outdim) filled in place (found %s, %s)' % (fmt(s(M))[:80], fmt(s(B))[:60]), b.span)
         return
-    # form A: Zip::from(mat.axis_iter_mut(Axis(0))).and(&mut bias).for_each(|row, value| { (x, y) = iter.next()..; row.assign(&x); *value = *y })
+    # One `assign` copies the coefficient vector, one write sets the bias.  Both name a *row cursor* (which row of the result) and a
+    # *source item* (which element of `rows`); the rule is that the two writes agree on both, that the cursor sweeps the rows in order and
+    # that one source item is consumed per row:
+    #   cursor  = the item of  mat.axis_iter_mut(Axis(0)) zipped with the bias (ndarray Zip::and + for_each closure, or std zip in a loop)
+    #           | an explicit index i used as mat.row_mut(i) / bias[i]
+    #   source  = the item of `rows` fetched in that iteration (next(), however it is unwrapped), or the enumerate item whose index is i
+    AX0 = (('const', 0),)
+
+    def rows_of_M(x):
+        return is_call(x, 'ArrayBase::axis_iter_mut', 'ArrayBase::outer_iter_mut', 'ArrayBase::rows_mut') and s(x[2][0]) == s(M) and \
+            (not is_call(x, 'ArrayBase::axis_iter_mut') or s(x[2][1])[2] == AX0)
+
+    def elems_of_B(x):
+        while is_call(x, 'ArrayBase::iter_mut', 'ArrayBase::outer_iter_mut', 'IntoIterator::into_iter') and x[2]:
+            x = x[2][0]
+        return s(x) == s(B)
+
+    def strip_unwrap(e):
+        while is_call(e, 'Option::unwrap_or_else', 'Option::unwrap', 'Option::expect') and e[2]:
+            e = e[2][0]
+        return e
+
+    def source_item(e, k):
+        """e = component k of an item of `rows`: (description of the item, index expression or None)"""
+        if e[0] != 'field' or e[2] != k:
+            return None
+        x = strip_unwrap(e[1])
+        if is_call(x, 'Iterator::next') and s(strip_unwrap(x[2][0])) == ('param', 'rows'):
+            return ('next', None)
+        # enumerate(rows) [.take(outdim)]: item = (i, (x, y))
+        if x[0] == 'field' and x[2] == '1' and is_call(x[1], 'Iterator::next'):
+            en = x[1][2][0]
+            if is_call(en, 'Iterator::take') and s(en[2][1]) == ('param', 'outdim'):
+                en = en[2][0]
+            if is_call(en, 'enumerate', 'Iterator::enumerate') and s(en[2][0]) == ('param', 'rows'):
+                return ('enumerate', s(('field', x[1], '0')))
+        return None
+
+    def std_zip_cursor(e, want_M):
+        """e = the matrix-row / bias component of next(zip(rows of M, elements of B)) in either order"""
+        if e[0] != 'field' or e[2] not in ('0', '1') or not is_call(e[1], 'Iterator::next') or not is_call(e[1][2][0], 'zip', 'Iterator::zip'):
+            return None
+        z = e[1][2][0][2]
+        k = int(e[2])
+        if rows_of_M(z[0]) and elems_of_B(z[1]):
+            return s(e[1]) if (k == 0) == want_M else None
+        if rows_of_M(z[1]) and elems_of_B(z[0]):
+            return s(e[1]) if (k == 1) == want_M else None
+        return None
+
+    sites_ = []   # (body, resolver, closure info or None)
     fe = [(bb, R.call_args(bb)) for bb, t in b.calls_to('Zip::for_each')]
-    done = False
     if len(fe) == 1 and fe[0][1][1][0] == 'closure':
         z = fe[0][1][0]
-        zip_ok = is_call(z, 'Zip::and') and is_call(z[2][0], 'Zip::from') and is_call(z[2][0][2][0], 'ArrayBase::axis_iter_mut') and \
-            s(z[2][0][2][0][2][0]) == s(M) and s(z[2][0][2][0][2][1])[2] == (('const', 0),) and s(z[2][1]) == s(B)
         cb = F.closure(fe[0][1][1][1])
-        if cb is not None and zip_ok:
-            Rc = Resolver(cb)
-            names = cb.arg_names()
-            row_p, val_p = ('param', names[1]), ('param', names[2])
-            caps = fe[0][1][1][2]
-            idx = cb.upvar_index()
-            src = None
-            nx = [(bb, Rc.call_args(bb)) for bb, t in cb.calls_to('Iterator::next')]
-            if len(nx) == 1 and nx[0][1][0][0] == 'upvar':
-                i = idx.get(nx[0][1][0][1])
-                src = caps[i] if i is not None and i < len(caps) else None
-            src_ok = src is not None and s(src) == ('param', 'rows')
-            asg = [(bb, Rc.call_args(bb), literals(cb, Rc, bb)) for bb, t in cb.calls_to('ArrayBase::assign')]
+        zip_ok = is_call(z, 'Zip::and') and is_call(z[2][0], 'Zip::from') and rows_of_M(z[2][0][2][0]) and elems_of_B(z[2][1])
+        if cb is None or not zip_ok:
+            ctx.undecided(rule, site, 'Zip::for_each does not sweep (rows of the matrix, elements of the bias)', b.span)
+            return
+        names = cb.arg_names()
+        caps = fe[0][1][1][2]
+        idx = cb.upvar_index()
+        Rc = Resolver(cb)
 
-            def comp(e, k):
-                # component k of the (unwrapped) item of the captured iterator
-                return e[0] == 'field' and e[2] == k and any(is_call(x, 'Iterator::next') for x in walk(e[1])) and not any(isinstance(x, tuple) and x[:1] == ('field',) and x[2] in ('0', '1') and x is not e for x in walk(e[1]))
-            asg_ok = len(asg) == 1 and asg[0][1][0] == row_p and comp(asg[0][1][1], '0') and not asg[0][2]
-            ws = [w for w in assigns(cb, Rc)]
-            val_ok = len(ws) == 1 and ws[0].target == val_p and comp(ws[0].value, '1') and not literals(cb, Rc, ws[0].bb)
-            if not src_ok:
-                problems.append('the rows copied are not the items of the `rows` argument in order')
-            if not asg_ok:
-                problems.append('row i of the matrix is not assigned the coefficient vector of the i-th item, unconditionally')
-            if not val_ok:
-                problems.append('element i of the bias is not the bias of the i-th item, unconditionally')
-            done = True
-    if not done:
-        # form B: a loop over the enumerated items writing row i and bias[i]
-        asg = [(bb, R.call_args(bb), literals(b, R, bb)) for bb, t in b.calls_to('ArrayBase::assign')]
-        ws = [w for w in assigns(b, R) if is_call(w.target, 'IndexMut::index_mut') and s(w.target[2][0]) == s(B)]
-        if len(asg) == 1 and len(ws) == 1:
-            _, (tgt, srcv), lits = asg[0]
-            item = [x for x in walk(srcv) if is_call(x, 'Iterator::next')]
-            en = item[0][2][0] if item else None
-            if en is not None and is_call(en, 'Iterator::take') and s(en[2][1]) == ('param', 'outdim'):
-                en = en[2][0]   # at most outdim items are consumed, as the zipped form does
-            ok_enum = en is not None and is_call(en, 'enumerate', 'Iterator::enumerate') and s(en[2][0]) == ('param', 'rows')
-            it = item[0] if item else None
-            i_expr = ('field', it, '0')
-            tgt_ok = is_call(tgt, 'ArrayBase::row_mut', 'ArrayBase::index_axis_mut') and s(tgt[2][0]) == s(M) and s(tgt[2][-1]) == s(i_expr) and \
-                (not is_call(tgt, 'ArrayBase::index_axis_mut') or s(tgt[2][1])[2] == (('const', 0),))
-            src_ok = s(srcv) == s(('field', ('field', it, '1'), '0'))
-            only_loop = all(l[0] == 'is' and is_call(l[1], 'Iterator::next') for l in lits)
-            w = ws[0]
-            bidx = w.target[2][1]
-            b_ok = s(bidx) == s(i_expr) and s(w.value) == s(('field', ('field', it, '1'), '1')) and \
-                all(l[0] == 'is' and is_call(l[1], 'Iterator::next') for l in literals(b, R, w.bb))
-            if not (ok_enum and tgt_ok and src_ok and only_loop):
-                problems.append('row i of the matrix is not assigned the coefficient vector of the i-th item of `rows`, unconditionally')
-            if not b_ok:
-                problems.append('element i of the bias is not the bias of the i-th item, unconditionally')
-            done = True
-    if not done:
-        ctx.undecided(rule, site, 'neither the Zip::for_each form nor an enumerate loop with row_mut(i).assign(..) / bias[i] = ..', b.span)
+        def unup(e):
+            # a captured iterator is the caller's value
+            if isinstance(e, tuple) and e[:1] == ('upvar',):
+                i = idx.get(e[1])
+                return caps[i] if i is not None and i < len(caps) else e
+            if isinstance(e, tuple):
+                return tuple(unup(x) for x in e)
+            return e
+        body_, R_ = cb, Rc
+        cur_M = lambda e: 'zip-closure' if e == ('param', names[1]) else None
+        cur_B = lambda e: 'zip-closure' if e == ('param', names[2]) else None
+    else:
+        unup = lambda e: e
+        body_, R_ = b, R
+        names = None
+
+        def cur_M(e):
+            c = std_zip_cursor(e, True)
+            if c is not None:
+                return ('zip', c)
+            if is_call(e, 'ArrayBase::row_mut') and s(e[2][0]) == s(M):
+                return ('index', s(e[2][1]))
+            if is_call(e, 'ArrayBase::index_axis_mut') and s(e[2][0]) == s(M) and s(e[2][1])[2] == AX0:
+                return ('index', s(e[2][2]))
+            return None
+
+        def cur_B(e):
+            c = std_zip_cursor(e, False)
+            if c is not None:
+                return ('zip', c)
+            if is_call(e, 'IndexMut::index_mut') and s(e[2][0]) == s(B):
+                return ('index', s(e[2][1]))
+            return None
+    asg = [(bb, R_.call_args(bb), literals(body_, R_, bb)) for bb, t in body_.calls_to('ArrayBase::assign')]
+    ws = [w for w in assigns(body_, R_)]
+    bws = [w for w in ws if cur_B(w.target) is not None]
+    others = [w for w in ws if w not in bws and any(s(x) in (s(M), s(B)) for x in walk(w.target))]
+    if len(asg) != 1 or len(bws) != 1:
+        ctx.undecided(rule, site, 'expected one `assign` of a row and one write of a bias element (found %d / %d)' % (len(asg), len(bws)), b.span)
         return
+    _, (tgt, srcv), lits = asg[0]
+    w = bws[0]
+    cm, cbias = cur_M(tgt), cur_B(w.target)
+    sm, sb = source_item(unup(srcv), '0'), source_item(unup(w.value), '1')
+    loop_only = lambda ls: all(l[0] == 'is' and is_call(l[1], 'Iterator::next') for l in ls)
+    if cm is None or cm != cbias:
+        problems.append('the row written and the bias element written do not belong to the same row of the result')
+    if sm is None:
+        problems.append('row i of the matrix is not assigned the coefficient vector of an item of `rows`')
+    if sb is None or (sm is not None and (sb != sm or s(unup(w.value)[1]) != s(unup(srcv)[1]))):
+        problems.append('element i of the bias is not the bias of the item whose coefficients were copied into row i')
+    if sm is not None and sm[0] == 'enumerate' and cm is not None and cm != ('index', sm[1]):
+        problems.append('the enumerate index of the item is not the row it is written to')
+    if sm is not None and sm[0] == 'next' and cm is not None and cm[0] == 'index':
+        problems.append('items are fetched with next() but written to an explicitly indexed row: the pairing of item and row is not decided')
+    if not loop_only(lits) or not loop_only(literals(body_, R_, w.bb)):
+        problems.append('a row or bias element is copied only under a condition')
+    if others:
+        problems.append('the matrix or the bias is written by something other than the two copies')
     if problems:
         for p_ in sorted(set(problems)):
             ctx.bad(rule, site, p_, b.span)
